@@ -364,9 +364,12 @@ def canaries(ctx):
     ctx.canary('solo runs are reproducible', t1 == t2 and len(t1) >= 1)
     # a class-level counter must be visible to the trace comparison
     q = Program(ctx, rng, 1)
-    while q.role != 'reader' or len(q.msgs) < 2:
-        q = Program(ctx, rng, 1)
     base_trace = q.run_alone()
+    for _ in range(200):
+        if q.role == 'reader' and any(x[0] == 'record' for x in base_trace):
+            break
+        q = Program(ctx, rng, 1)
+        base_trace = q.run_alone()
     fake = [x if x[0] != 'record' else (x[0], x[1], x[2] + 1, x[3]) for x in base_trace]
     ctx.canary('a shifted record counter changes the trace', fake != base_trace)
 
